@@ -190,8 +190,18 @@ def run(rep: Report, tier: str) -> None:
 		for cl in nodes(lp, ast.Call):
 			if isinstance(cl.func, ast.Attribute) and cl.func.attr == 'append' and cl.args and isinstance(cl.args[0], ast.Call) and unparse(cl.args[0].func) == 'self.resolve' and unparse(cl.args[0].args[0]) == lp.target.id:
 				appends.append((lp, cl))
-	if not appends:
-		rc.skip('invoke-curry-prefix', inv.where, 'invoke no longer appends self.resolve(<annotation>) in a loop over the parameter annotations')
+	# the same collection written as a comprehension: a filter (`if can_resolve`) keeps resolvable parameters *after* an unresolvable one, which is not a prefix
+	comps = []
+	for cp in nodes(FI(inv), (ast.ListComp, ast.GeneratorExp)):
+		g0 = cp.generators[0]
+		if isinstance(g0.target, ast.Name) and isinstance(cp.elt, ast.Call) and unparse(cp.elt.func) == 'self.resolve' and cp.elt.args and unparse(cp.elt.args[0]) == g0.target.id:
+			comps.append(cp)
+	for cp in comps:
+		g0 = cp.generators[0]
+		takewhile = isinstance(g0.iter, ast.Call) and unparse(g0.iter.func).endswith('takewhile') and 'can_resolve' in unparse(g0.iter) and not g0.ifs and len(cp.generators) == 1
+		rc.check(takewhile, 'invoke-curry-prefix', inv.where, f'invoke must curry exactly the leading run of resolvable parameters; `{unparse(cp)[:140]}` filters instead of stopping at the first parameter that is not resolvable, so a resolvable parameter after an unresolvable one is curried too and the remaining arguments shift', unparse(cp)[:160])
+	if not appends and not comps:
+		rc.skip('invoke-curry-prefix', inv.where, 'invoke no longer collects self.resolve(<annotation>) over the parameter annotations in a loop or comprehension')
 	curried = None
 	for lp, cl in appends:
 		v = lp.target.id
